@@ -1643,6 +1643,7 @@ theorem quietL_of_except_and_child : ∀ (cs : TL) (i : Nat) (t : T), QuietExcep
 
 theorem noFinL_pop : ∀ (cs : TL) (i id : Nat) (d : Node) (ccs : TL), NoFinExcept cs (some i) = true →
     cs.get? i = some (.node d ccs) → (cancelId d id).tasks.any (fun p => p.2.isFin) = false → NoFinL (popChild cs i id) = true
+  | .nil, _, _, _, _, _, hg, _ => by simp [TL.get?] at hg
   | .cons a ts, 0, id, d, ccs, h, hg, hf => by
     simp only [NoFinExcept] at h; simp only [TL.get?] at hg
     cases hg
@@ -1651,5 +1652,600 @@ theorem noFinL_pop : ∀ (cs : TL) (i id : Nat) (d : Node) (ccs : TL), NoFinExce
     simp only [NoFinExcept, Bool.and_eq_true] at h; simp only [TL.get?] at hg
     simp only [popChild, NoFinL, Bool.and_eq_true]
     exact ⟨h.1, noFinL_pop ts i id d ccs h.2 hg hf⟩
+
+/-! ### a queued task runs: pop + handler -/
+
+theorem HP_rebase (d0 d : Node) (cs0 cs : TL) (r : Node × TL × G) (h : HP d cs r) (hR : R (.node d0 cs0) (.node d cs))
+    (hu : d.underway = true → d0.underway = true) (hk : d.kind = d0.kind) : HP d0 cs0 r :=
+  ⟨h.1, h.2.1, R_trans _ _ _ hR h.2.2.1 hu, by rw [h.2.2.2.1, hk], h.2.2.2.2⟩
+
+theorem R_children (d : Node) (cs cs' : TL) (h : RL cs cs') : R (.node d cs) (.node d cs') := by
+  refine ⟨?_, ?_, fun hf => Or.inl hf⟩
+  · intro hq; simp only [Quiet, Bool.and_eq_true] at hq ⊢; exact ⟨hq.1, RL_quietL cs cs' h hq.2⟩
+  · intro hc; simp only [Clean, Bool.and_eq_true] at hc; rw [RL_cleanL cs cs' h hc.2]
+
+theorem wf_children_RL (d : Node) (cs cs' : TL) (h : WF (.node d cs) = true) (hr : RL cs cs') (hw : WFL cs' = true) :
+    WF (.node d cs') = true := by
+  obtain ⟨hN, hleaf, hch, _⟩ := wf_parts d cs h
+  exact wf_mk d cs' hN (by rw [RL_length cs cs' hr]; exact hleaf)
+    (childrenOk_RL d d cs cs' hch hr rfl rfl rfl rfl (fun _ x => x)) hw
+
+theorem not_idle_of_child (d : Node) (cs : TL) (i : Nat) (dc : Node) (ccs : TL) (h : WF (.node d cs) = true)
+    (hget : cs.get? i = some (.node dc ccs)) (hne : dc.tasks ≠ []) : d.st ≠ .idle := by
+  intro hi
+  obtain ⟨_, _, hch, _⟩ := wf_parts d cs h
+  have hcl : CleanL cs = true := by simpa [childrenOk, hi] using hch
+  have := get_clean cs i _ hcl hget
+  simp only [Clean, Bool.and_eq_true] at this
+  exact hne (clean_fields dc this.1).2.2.1
+
+theorem childFin_HP (d : Node) (cs : TL) (g : G) (i id : Nat) (s : Bool) (w : Nat) (hWF : WF (.node d cs) = true) (hg : GI g)
+    (dc : Node) (ccs : TL) (hget : cs.get? i = some (.node dc ccs)) (hmem : (id, TK.fin s w) ∈ dc.tasks) :
+    HP d cs (onChildFin d (popChild cs i id) g i s w) := by
+  obtain ⟨hN, hleaf, hch, hw⟩ := wf_parts d cs hWF
+  have hni := not_idle_of_child d cs i dc ccs hWF hget (by intro h; rw [h] at hmem; cases hmem)
+  have hpop := popChild_spec cs i id hw
+  have hWF' := wf_children_RL d cs _ hWF hpop.2 hpop.1
+  have hRb := R_children d cs _ hpop.2
+  -- the child: Finished, quiet, and after the pop without a finish notification
+  have hcWF := get_wf cs i _ hw hget
+  obtain ⟨hNc, _, hchc, _⟩ := wf_parts dc ccs hcWF
+  have hcfin := hNc.fin id s w hmem
+  have hcq : Quiet (.node dc ccs) = true := by
+    have hu : dc.underway = false := by simp [Node.underway, hcfin.1]
+    simp [Quiet, hu, children_quiet dc ccs hchc hu]
+  have hcf : hasFin (.node dc ccs) = true := by
+    rw [hasFin_node]; simp only [List.any_eq_true]; exact ⟨_, hmem, rfl⟩
+  have hnofin : (cancelId dc id).tasks.any (fun p => p.2.isFin) = false := by
+    simp only [List.any_eq_false, cancelId, List.mem_filter, bne_iff_ne, ne_eq]
+    intro p hp
+    obtain ⟨pid, tk⟩ := p
+    cases tk with
+    | fin s' w' => have := (hNc.fin pid s' w' hp.1).2.1; exact absurd (this.trans hcfin.2.1.symm) hp.2
+    | _ => simp [TK.isFin]
+  unfold onChildFin
+  split
+  · rename_i hpar
+    obtain ⟨_, _, hch', hw'⟩ := wf_parts d _ hWF'
+    exact HP_rebase d d cs _ _ (parOnChild_wf d _ g i s hN hpar hni hch' hw' hg) hRb (fun h => h) rfl
+  · rename_i hpar
+    by_cases hl : d.isLeaf = true
+    · -- a leaf has no children
+      have : cs.length = 0 := by simpa [hl] using hleaf
+      cases cs with
+      | nil => simp [TL.get?] at hget
+      | cons a b => simp [TL.length] at this
+    · have hser : d.isSerial = true := by simp [Node.isSerial, hl, hpar]
+      have hpre : SPre d (popChild cs i id) := by
+        constructor
+        · intro hu
+          rw [childrenOk_serial_underway d cs hser hu] at hch
+          simp only [Bool.and_eq_true, Bool.or_eq_true] at hch
+          obtain ⟨⟨hqe, hne⟩, h3⟩ := hch
+          have hcur := noFinExcept_curr cs d.curr i _ hne hget hcf
+          rw [hcur] at hqe hne
+          have hq := quietL_of_except_and_child cs i _ hqe hget hcq
+          have h3' : d.held.isNone = true ∧ (!d.tasks.any fun p => p.2.isReplay) = true := by
+            rcases h3 with h3 | h3
+            · exact h3
+            · have := noFinL_get cs i _ h3.2 hget; rw [hcf] at this; cases this
+          refine ⟨RL_quietL cs _ hpop.2 hq, noFinL_pop cs i id dc ccs hne hget hnofin, by simpa using h3'.1, ?_⟩
+          intro rid h hm
+          have : d.tasks.any (fun p => p.2.isReplay) = true := by
+            simp only [List.any_eq_true]; exact ⟨_, hm, rfl⟩
+          rw [this] at h3'; simp at h3'
+        · intro hu
+          exact RL_quietL cs _ hpop.2 (children_quiet d cs hch hu)
+      exact HP_rebase d d cs _ _ (serialOnChild_wf d _ g i s w hN hser hni hpre hpop.1 hg) hRb (fun h => h) rfl
+
+theorem childBlk_HP (d : Node) (cs : TL) (g : G) (i id w : Nat) (hWF : WF (.node d cs) = true) (hg : GI g)
+    (dc : Node) (ccs : TL) (hget : cs.get? i = some (.node dc ccs)) (hmem : (id, TK.blk w) ∈ dc.tasks) :
+    HP d cs (onChildBlk d (popChild cs i id) g w) := by
+  obtain ⟨hN, hleaf, hch, hw⟩ := wf_parts d cs hWF
+  have hni := not_idle_of_child d cs i dc ccs hWF hget (by intro h; rw [h] at hmem; cases hmem)
+  have hpop := popChild_spec cs i id hw
+  have hWF' := wf_children_RL d cs _ hWF hpop.2 hpop.1
+  exact HP_rebase d d cs _ _ (onChildBlk_wf d _ g w hWF' hni hg) (R_children d cs _ hpop.2) (fun h => h) rfl
+
+theorem parOnChild_ended (x : Node) (cs : TL) (g : G) (i : Nat) (s : Bool) (hu : x.underway = false) :
+    parOnChild x cs g i s = (x, cs, g) := by
+  have h1 : (x.st == St.running) = false := by
+    cases hs : x.st <;> simp_all [Node.underway]
+  have h2 : (x.st == St.pause) = false := by
+    cases hs : x.st <;> simp_all [Node.underway]
+  unfold parOnChild; simp [h1, h2]
+
+theorem par_fold : ∀ (l : List (Nat × Bool)) (x : Node) (cs : TL) (g : G), NodeOkP x → x.isPar = true → x.st ≠ .idle →
+    childrenOk x cs = true → (!x.isLeaf || cs.length == 0) = true → WFL cs = true → GI g →
+    let r := l.foldl (fun (p : Node × TL × G) r => parOnChild p.1 p.2.1 p.2.2 r.1 r.2) (x, cs, g)
+    WF (.node r.1 r.2.1) = true ∧ GI r.2.2 ∧ r.1.kind = x.kind ∧ r.1.st ≠ .idle ∧ (x.underway = false → r = (x, cs, g))
+  | [], x, cs, g, hN, hp, hni, hch, hl, hw, hg => ⟨wf_mk x cs hN hl hch hw, hg, rfl, hni, fun _ => rfl⟩
+  | (i, s) :: l, x, cs, g, hN, hp, hni, hch, hl, hw, hg => by
+    have a := parOnChild_wf x cs g i s hN hp hni hch hw hg
+    obtain ⟨aN, al, ach, aw⟩ := wf_parts _ _ a.1
+    have ih := par_fold l (parOnChild x cs g i s).1 (parOnChild x cs g i s).2.1 (parOnChild x cs g i s).2.2 aN
+      (by rw [← hp]; exact isPar_congr x _ a.2.2.2.1) a.2.2.2.2 ach al aw a.2.1
+    simp only [List.foldl_cons]
+    refine ⟨ih.1, ih.2.1, by rw [ih.2.2.1, a.2.2.2.1], ih.2.2.2.1, ?_⟩
+    intro hu
+    have e := parOnChild_ended x cs g i s hu
+    have := ih.2.2.2.2 (by rw [e]; exact hu)
+    rw [this, e]
+
+theorem replay_HP (d : Node) (cs : TL) (g : G) (id : Nat) (tk : TK) (hWF : WF (.node d cs) = true) (hg : GI g)
+    (hmem : (id, tk) ∈ d.tasks) (hr : tk.isReplay = true) : HP d cs (onReplay (cancelId d id) cs g tk) := by
+  obtain ⟨hN, hleaf, hch, hw⟩ := wf_parts d cs hWF
+  have c := wf_cancelId d cs id hWF
+  obtain ⟨hN1, hleaf1, hch1, _⟩ := wf_parts _ cs c.1
+  have sub : ∀ p, p ∈ (cancelId d id).tasks → p ∈ d.tasks ∧ p.1 ≠ id := by
+    intro p hp; simp only [cancelId, List.mem_filter, bne_iff_ne, ne_eq] at hp; exact hp
+  cases tk with
+  | fin _ _ => simp [TK.isReplay] at hr
+  | blk _ => simp [TK.isReplay] at hr
+  | replay h =>
+    have hrep := hN.rep id h hmem
+    have hni : d.st ≠ .idle := hrep.2.2.1
+    have hnorep : ∀ rid x, (rid, TK.replay x) ∉ (cancelId d id).tasks := by
+      intro rid x hm
+      have := sub _ hm
+      exact this.2 ((hN.rep rid x this.1).1.trans hrep.1.symm)
+    cases h with
+    | child i s w =>
+      have hpre : SPre (cancelId d id) cs := by
+        constructor
+        · intro hu
+          have hu' : d.underway = true := hu
+          rw [childrenOk_serial_underway d cs hrep.2.2.2.2.1 hu'] at hch
+          simp only [Bool.and_eq_true, Bool.or_eq_true] at hch
+          obtain ⟨⟨hqe, hne⟩, h3⟩ := hch
+          have hany : d.tasks.any (fun p => p.2.isReplay) = true := by
+            simp only [List.any_eq_true]; exact ⟨_, hmem, rfl⟩
+          rcases h3 with h3 | h3
+          · rw [hany] at h3; simp at h3
+          · have hcn : d.curr = none := by simpa using h3.1
+            rw [hcn] at hqe
+            exact ⟨quietL_of_except_none cs hqe, h3.2, hrep.2.2.2.2.2, hnorep⟩
+        · intro hu; exact children_quiet d cs hch hu
+      exact HP_rebase d _ cs cs _ (serialOnChild_wf (cancelId d id) cs g i s w hN1
+        (by rw [← hrep.2.2.2.2.1]; exact isSerial_congr d _ rfl) hni hpre hw hg) c.2 (fun h => h) rfl
+    | last s w =>
+      exact finish3_HP d cs g hWF hni hg (cancelId d id) rfl (fun p hp => (sub p hp).1) rfl rfl rfl (Or.inr rfl) (Or.inr rfl) rfl rfl rfl rfl s w
+  | replayPar =>
+    have hrep := hN.repp id hmem
+    have hni : d.st ≠ .idle := hrep.2.2.1
+    have hpar := hrep.2.2.2.2
+    have hnl := par_not_leaf d hpar
+    have hN0 : NodeOkP { cancelId d id with heldPar := [], replayId := 0 } := by
+      refine nodeOkP_congr (cancelId d id) _ hN1 hni rfl rfl rfl rfl (Or.inr ⟨?_, ?_⟩) rfl (Or.inr rfl) rfl rfl (Or.inl rfl)
+      · intro rid x hm
+        have := (hN.rep rid x (sub _ hm).1).2.2.2.2.1
+        have := (serial_not_leaf d this).2; simp [hpar] at this
+      · intro rid hm
+        have := sub _ hm
+        exact this.2 ((hN.repp rid this.1).1.trans hrep.1.symm)
+    have hch0 : childrenOk { cancelId d id with heldPar := [], replayId := 0 } cs = true :=
+      childrenOk_RL d _ cs cs hch (RL_refl cs) rfl rfl rfl rfl
+        (by intro hs; have := (serial_not_leaf d hs).2; simp [hpar] at this)
+    have f := par_fold (cancelId d id).heldPar { cancelId d id with heldPar := [], replayId := 0 } cs g hN0
+      (by rw [← hpar]; exact isPar_congr d _ rfl) hni hch0 (by simp [Node.isLeaf] at hnl ⊢; exact Or.inl hnl) hw hg
+    simp only [onReplay]
+    refine ⟨f.1, f.2.1, ?_, f.2.2.1, f.2.2.2.1⟩
+    by_cases hu : d.underway = true
+    · exact R_of_underway d cs _ hu
+    · have hu' : d.underway = false := by simpa using hu
+      have e := f.2.2.2.2 hu'
+      rw [e]
+      exact R_of_ended d _ cs cs hni hu' (children_quiet d cs hch hu')
+        (by intro hx; simp only [List.any_eq_true] at hx ⊢; obtain ⟨p, hp, hq⟩ := hx; exact ⟨p, (sub p hp).1, hq⟩)
+
+/-! ### lifting a handler that runs somewhere inside the tree -/
+
+theorem HP3 {d : Node} {cs : TL} {r : Node × TL × G} (h : HP d cs r) :
+    WF (.node r.1 r.2.1) = true ∧ GI r.2.2 ∧ R (.node d cs) (.node r.1 r.2.1) := ⟨h.1, h.2.1, h.2.2.1⟩
+
+
+mutual
+theorem lift : ∀ (t : T) (path : List Nat) (f : Node → TL → G → Node × TL × G) (g : G) (d : Node) (cs : TL),
+    WF t = true → subAt t path = some (.node d cs) →
+    (WF (.node (f d cs g).1 (f d cs g).2.1) = true ∧ GI (f d cs g).2.2 ∧ R (.node d cs) (.node (f d cs g).1 (f d cs g).2.1)) →
+    WF (modifyAt t path f g).1 = true ∧ GI (modifyAt t path f g).2 ∧ R t (modifyAt t path f g).1
+  | .node d0 cs0, [], f, g, d, cs, h, hs, hp => by
+    simp only [subAt, Option.some.injEq, T.node.injEq] at hs
+    obtain ⟨e1, e2⟩ := hs; subst e1; subst e2
+    simp only [modifyAt]
+    exact hp
+  | .node d0 cs0, i :: p, f, g, d, cs, h, hs, hp => by
+    simp only [subAt] at hs
+    obtain ⟨_, _, _, hw⟩ := wf_parts d0 cs0 h
+    have a := liftL cs0 i p f g d cs hw hs hp
+    simp only [modifyAt]
+    exact ⟨wf_children_RL d0 cs0 _ h a.2.2 a.1, a.2.1, R_children d0 cs0 _ a.2.2⟩
+theorem liftL : ∀ (cs0 : TL) (i : Nat) (path : List Nat) (f : Node → TL → G → Node × TL × G) (g : G) (d : Node) (cs : TL),
+    WFL cs0 = true → subAtL cs0 i path = some (.node d cs) →
+    (WF (.node (f d cs g).1 (f d cs g).2.1) = true ∧ GI (f d cs g).2.2 ∧ R (.node d cs) (.node (f d cs g).1 (f d cs g).2.1)) →
+    WFL (modifyAtL cs0 i path f g).1 = true ∧ GI (modifyAtL cs0 i path f g).2 ∧ RL cs0 (modifyAtL cs0 i path f g).1
+  | .nil, _, _, _, _, _, _, _, hs, _ => by simp [subAtL] at hs
+  | .cons t ts, 0, p, f, g, d, cs, h, hs, hp => by
+    simp only [WFL, Bool.and_eq_true] at h
+    simp only [subAtL] at hs
+    have a := lift t p f g d cs h.1 hs hp
+    simp only [modifyAtL, WFL, RL, Bool.and_eq_true]
+    exact ⟨⟨a.1, h.2⟩, a.2.1, a.2.2, RL_refl ts⟩
+  | .cons t ts, i + 1, p, f, g, d, cs, h, hs, hp => by
+    simp only [WFL, Bool.and_eq_true] at h
+    simp only [subAtL] at hs
+    have b := liftL ts i p f g d cs h.2 hs hp
+    simp only [modifyAtL, WFL, RL, Bool.and_eq_true]
+    exact ⟨⟨h.1, b.1⟩, b.2.1, R_refl t, b.2.2⟩
+end
+
+mutual
+theorem subAt_wf : ∀ (t : T) (path : List Nat) (s : T), WF t = true → subAt t path = some s → WF s = true
+  | t, [], s, h, hs => by simp only [subAt, Option.some.injEq] at hs; subst hs; exact h
+  | .node d cs, i :: p, s, h, hs => by
+    simp only [subAt] at hs
+    exact subAtL_wf cs i p s (wf_parts d cs h).2.2.2 hs
+theorem subAtL_wf : ∀ (cs : TL) (i : Nat) (path : List Nat) (s : T), WFL cs = true → subAtL cs i path = some s → WF s = true
+  | .nil, _, _, _, _, hs => by simp [subAtL] at hs
+  | .cons t ts, 0, p, s, h, hs => by
+    simp only [WFL, Bool.and_eq_true] at h; simp only [subAtL] at hs; exact subAt_wf t p s h.1 hs
+  | .cons t ts, i + 1, p, s, h, hs => by
+    simp only [WFL, Bool.and_eq_true] at h; simp only [subAtL] at hs; exact subAtL_wf ts i p s h.2 hs
+end
+
+theorem subAtL_nil_get : ∀ (cs : TL) (i : Nat), subAtL cs i [] = cs.get? i
+  | .nil, _ => by simp [subAtL, TL.get?]
+  | .cons t ts, 0 => by simp [subAtL, subAt, TL.get?]
+  | .cons t ts, i + 1 => by simp [subAtL, TL.get?, subAtL_nil_get ts i]
+
+mutual
+theorem subAt_snoc : ∀ (t : T) (pp : List Nat) (i : Nat) (c : T), subAt t (pp ++ [i]) = some c →
+    ∃ d cs, subAt t pp = some (.node d cs) ∧ cs.get? i = some c
+  | .node d cs, [], i, c, h => by
+    simp only [List.nil_append, subAt] at h
+    rw [subAtL_nil_get] at h
+    exact ⟨d, cs, rfl, h⟩
+  | .node d cs, j :: pp, i, c, h => by
+    simp only [List.cons_append, subAt] at h ⊢
+    exact subAtL_snoc cs j pp i c h
+theorem subAtL_snoc : ∀ (cs0 : TL) (j : Nat) (pp : List Nat) (i : Nat) (c : T), subAtL cs0 j (pp ++ [i]) = some c →
+    ∃ d cs, subAtL cs0 j pp = some (.node d cs) ∧ cs.get? i = some c
+  | .nil, _, _, _, _, h => by simp [subAtL] at h
+  | .cons t ts, 0, pp, i, c, h => by simp only [subAtL] at h ⊢; exact subAt_snoc t pp i c h
+  | .cons t ts, j + 1, pp, i, c, h => by simp only [subAtL] at h ⊢; exact subAtL_snoc ts j pp i c h
+end
+
+theorem splitLast_some : ∀ (path pp : List Nat) (i : Nat), splitLast path = some (pp, i) → path = pp ++ [i]
+  | [], _, _, h => by simp [splitLast] at h
+  | [a], pp, i, h => by simp [splitLast] at h; obtain ⟨h1, h2⟩ := h; subst h1; subst h2; rfl
+  | a :: b :: rest, pp, i, h => by
+    simp only [splitLast] at h
+    cases hr : splitLast (b :: rest) with
+    | none => simp [hr] at h
+    | some q =>
+      obtain ⟨p', l⟩ := q
+      simp [hr] at h
+      obtain ⟨h1, h2⟩ := h; subst h1; subst h2
+      rw [splitLast_some (b :: rest) p' l hr]; rfl
+
+theorem splitLast_none : ∀ (path : List Nat), splitLast path = none → path = []
+  | [], _ => rfl
+  | [a], h => by simp [splitLast] at h
+  | a :: b :: rest, h => by
+    simp only [splitLast] at h
+    cases hr : splitLast (b :: rest) with
+    | none => have := splitLast_none (b :: rest) hr; cases this
+    | some q => simp [hr] at h
+
+mutual
+theorem allTasks_at : ∀ (t : T) (pre : List Nat) (x : Nat × List Nat × TK), x ∈ allTasks t pre →
+    ∃ p, x.2.1 = pre ++ p ∧ ∃ d cs, subAt t p = some (.node d cs) ∧ (x.1, x.2.2) ∈ d.tasks
+  | .node d cs, pre, x, h => by
+    simp only [allTasks, List.mem_append, List.mem_map] at h
+    rcases h with ⟨q, hq, e⟩ | h
+    · subst e; exact ⟨[], by simp, d, cs, rfl, hq⟩
+    · obtain ⟨j, p, e, d', cs', hs, hm⟩ := allTasksL_at cs pre 0 x h
+      refine ⟨j :: p, by simpa using e, d', cs', ?_, hm⟩
+      simp only [subAt]; exact hs
+theorem allTasksL_at : ∀ (cs : TL) (pre : List Nat) (k : Nat) (x : Nat × List Nat × TK), x ∈ allTasksL cs pre k →
+    ∃ j p, x.2.1 = pre ++ [k + j] ++ p ∧ ∃ d cs', subAtL cs j p = some (.node d cs') ∧ (x.1, x.2.2) ∈ d.tasks
+  | .nil, _, _, _, h => by simp [allTasksL] at h
+  | .cons t ts, pre, k, x, h => by
+    simp only [allTasksL, List.mem_append] at h
+    rcases h with h | h
+    · obtain ⟨p, e, d, cs', hs, hm⟩ := allTasks_at t (pre ++ [k]) x h
+      exact ⟨0, p, by simpa using e, d, cs', by simpa [subAtL] using hs, hm⟩
+    · obtain ⟨j, p, e, d, cs', hs, hm⟩ := allTasksL_at ts pre (k + 1) x h
+      refine ⟨j + 1, p, ?_, d, cs', by simpa [subAtL] using hs, hm⟩
+      rw [e]; have : k + 1 + j = k + (j + 1) := by omega
+      rw [this]
+end
+
+/-! ### the loop -/
+
+theorem runTask_wf (t : T) (g : G) (id : Nat) (h : WF t = true) (hg : GI g) :
+    WF (runTask t g id).1 = true ∧ GI (runTask t g id).2 := by
+  unfold runTask
+  cases hf : (allTasks t []).find? (fun x => x.1 == id) with
+  | none => exact ⟨h, hg⟩
+  | some x =>
+    obtain ⟨id', path, tk⟩ := x
+    have hid : id' = id := by have := List.find?_some hf; simpa using this
+    subst hid
+    obtain ⟨p, e, dN, csN, hs, hm⟩ := allTasks_at t [] _ (List.mem_of_find?_eq_some hf)
+    simp only [List.nil_append] at e; subst e
+    simp only at hm hs
+    cases tk with
+    | fin s w =>
+      simp only
+      cases hsl : splitLast path with
+      | none =>
+        have := splitLast_none path hsl; subst this
+        obtain ⟨d, cs⟩ := t
+        simp only [T.data, T.children]
+        exact ⟨(wf_cancelId d cs id' h).1, hg⟩
+      | some q =>
+        obtain ⟨pp, i⟩ := q
+        have := splitLast_some path pp i hsl; subst this
+        obtain ⟨d, cs, hs', hget⟩ := subAt_snoc t pp i _ hs
+        have a := lift t pp (fun d cs g => onChildFin d (popChild cs i id') g i s w) g d cs h hs'
+          (HP3 (childFin_HP d cs g i id' s w (subAt_wf t pp _ h hs') hg dN csN hget hm))
+        exact ⟨a.1, a.2.1⟩
+    | blk w =>
+      simp only
+      cases hsl : splitLast path with
+      | none =>
+        have := splitLast_none path hsl; subst this
+        obtain ⟨d, cs⟩ := t
+        simp only [T.data, T.children]
+        exact ⟨(wf_cancelId d cs id' h).1, hg⟩
+      | some q =>
+        obtain ⟨pp, i⟩ := q
+        have := splitLast_some path pp i hsl; subst this
+        obtain ⟨d, cs, hs', hget⟩ := subAt_snoc t pp i _ hs
+        have a := lift t pp (fun d cs g => onChildBlk d (popChild cs i id') g w) g d cs h hs'
+          (HP3 (childBlk_HP d cs g i id' w (subAt_wf t pp _ h hs') hg dN csN hget hm))
+        exact ⟨a.1, a.2.1⟩
+    | replay hh =>
+      simp only
+      have a := lift t path (fun d cs g => onReplay (cancelId d id') cs g (.replay hh)) g dN csN h hs
+        (HP3 (replay_HP dN csN g id' _ (subAt_wf t path _ h hs) hg hm rfl))
+      exact ⟨a.1, a.2.1⟩
+    | replayPar =>
+      simp only
+      have a := lift t path (fun d cs g => onReplay (cancelId d id') cs g .replayPar) g dN csN h hs
+        (HP3 (replay_HP dN csN g id' _ (subAt_wf t path _ h hs) hg hm rfl))
+      exact ⟨a.1, a.2.1⟩
+
+mutual
+theorem modifyAt_none : ∀ (t : T) (path : List Nat) (f : Node → TL → G → Node × TL × G) (g : G),
+    subAt t path = none → modifyAt t path f g = (t, g)
+  | t, [], _, _, h => by simp [subAt] at h
+  | .node d cs, i :: p, f, g, h => by
+    simp only [subAt] at h
+    simp only [modifyAt, modifyAtL_none cs i p f g h]
+theorem modifyAtL_none : ∀ (cs : TL) (i : Nat) (path : List Nat) (f : Node → TL → G → Node × TL × G) (g : G),
+    subAtL cs i path = none → modifyAtL cs i path f g = (cs, g)
+  | .nil, _, _, _, _, _ => by simp [modifyAtL]
+  | .cons t ts, 0, p, f, g, h => by
+    simp only [subAtL] at h
+    simp only [modifyAtL, modifyAt_none t p f g h]
+  | .cons t ts, i + 1, p, f, g, h => by
+    simp only [subAtL] at h
+    simp only [modifyAtL, modifyAtL_none ts i p f g h]
+end
+
+theorem fireOne_wf (t : T) (g : G) (dl : Nat) (path : List Nat) (isSleep : Bool) (h : WF t = true) (hg : GI g) :
+    WF (fireOne t g dl path isSleep).1 = true ∧ GI (fireOne t g dl path isSleep).2 := by
+  unfold fireOne
+  cases hs : subAt t path with
+  | none => rw [modifyAt_none t path _ g hs]; exact ⟨h, hg⟩
+  | some s =>
+    obtain ⟨d, cs⟩ := s
+    have hWF := subAt_wf t path _ h hs
+    have a := lift t path (fun d cs g =>
+        if (if isSleep then d.sleepAt else d.tmoAt) == some dl then onTimer d cs g isSleep else (d, cs, g)) g d cs h hs (by
+      by_cases hc : ((if isSleep = true then d.sleepAt else d.tmoAt) == some dl) = true
+      · simp only [hc, ↓reduceIte]
+        refine HP3 (onTimer_wf d cs g isSleep hWF hg ?_)
+        cases isSleep with
+        | true => simp at hc ⊢; rw [hc]; simp
+        | false => simp at hc ⊢; rw [hc]; simp
+      · simp only [hc, Bool.false_eq_true, ↓reduceIte]
+        exact ⟨hWF, hg, R_refl _⟩)
+    exact ⟨a.1, a.2.1⟩
+
+theorem fold_wf {α : Type} (step : T × G → α → T × G)
+    (hstep : ∀ t g x, WF t = true → GI g → WF (step (t, g) x).1 = true ∧ GI (step (t, g) x).2) :
+    ∀ (l : List α) (t : T) (g : G), WF t = true → GI g → WF (l.foldl step (t, g)).1 = true ∧ GI (l.foldl step (t, g)).2
+  | [], t, g, h, hg => ⟨h, hg⟩
+  | x :: l, t, g, h, hg => by
+    have a := hstep t g x h hg
+    simp only [List.foldl_cons]
+    exact fold_wf step hstep l (step (t, g) x).1 (step (t, g) x).2 a.1 a.2
+
+theorem fireTimers_wf (t : T) (g : G) (h : WF t = true) (hg : GI g) :
+    WF (fireTimers t g).1 = true ∧ GI (fireTimers t g).2 := by
+  unfold fireTimers
+  exact fold_wf (fun (p : T × G) (x : Nat × List Nat × Bool) => fireOne p.1 p.2 x.1 x.2.1 x.2.2)
+    (fun t g x h hg => fireOne_wf t g x.1 x.2.1 x.2.2 h hg) _ t g h hg
+
+theorem doCall_wf (t : T) (g : G) (c : Call) (h : WF t = true) (hg : GI g) :
+    WF (doCall t g c).1 = true ∧ GI (doCall t g c).2.1 := by
+  cases c with
+  | start => have a := start_wf t g h hg; exact ⟨a.1, a.2.1⟩
+  | pause => have a := pause_wf t g h hg; exact ⟨a.1, a.2.1⟩
+  | resume => have a := resume_wf t g h hg; exact ⟨a.1, a.2.1⟩
+  | stop => have a := stop_wf t g h hg; exact ⟨a.1, a.2.1⟩
+  | reset => have a := reset_wf t g h hg; exact ⟨a.1, a.2.1⟩
+  | emitFin n s =>
+    simp only [doCall]
+    split
+    · exact ⟨h, hg⟩
+    · rename_i p hp
+      split
+      · rename_i hrd
+        unfold runningDummyAt at hrd
+        cases hs : subAt t p with
+        | none => simp [hs] at hrd
+        | some sub =>
+          obtain ⟨d, cs⟩ := sub
+          simp only [hs, T.data, Bool.and_eq_true, beq_iff_eq] at hrd
+          have hWF := subAt_wf t p _ h hs
+          have a := lift t p (fun d cs g => finish3 d cs g s 0) g d cs h hs
+            (HP3 (finish3_HP d cs g hWF (by simp [hrd.2]) hg d rfl (fun _ x => x) rfl rfl rfl (Or.inr rfl) (Or.inr rfl) rfl rfl rfl rfl s 0))
+          exact ⟨a.1, a.2.1⟩
+      · exact ⟨h, hg⟩
+  | emitBlk n =>
+    simp only [doCall]
+    split
+    · exact ⟨h, hg⟩
+    · rename_i p hp
+      split
+      · rename_i hrd
+        unfold runningDummyAt at hrd
+        cases hs : subAt t p with
+        | none => simp [hs] at hrd
+        | some sub =>
+          obtain ⟨d, cs⟩ := sub
+          simp only [hs, T.data, Bool.and_eq_true, beq_iff_eq] at hrd
+          have hWF := subAt_wf t p _ h hs
+          have hnp : d.isPar = false := by simp [Node.isPar, hrd.1]
+          have hb := onChildBlk_wf d cs g 0 hWF (by simp [hrd.2]) hg
+          have e : onChildBlk d cs g 0 = ((block d g 0).1, cs, (block d g 0).2.1) := by simp [onChildBlk, hnp]
+          rw [e] at hb
+          have a := lift t p (fun d cs g => ((block d g 0).1, cs, (block d g 0).2.1)) g d cs h hs (HP3 hb)
+          exact ⟨a.1, a.2.1⟩
+      · exact ⟨h, hg⟩
+
+theorem doCalls_wf (t : T) (g : G) (cs : List Call) (h : WF t = true) (hg : GI g) :
+    WF (doCalls t g cs).1 = true ∧ GI (doCalls t g cs).2.1 := by
+  unfold doCalls
+  suffices hgen : ∀ (l : List Call) (t : T) (g : G) (acc : List Bool), WF t = true → GI g →
+      WF (l.foldl (fun (p : T × G × List Bool) c => ((doCall p.1 p.2.1 c).1, (doCall p.1 p.2.1 c).2.1, p.2.2 ++ [(doCall p.1 p.2.1 c).2.2])) (t, g, acc)).1 = true ∧
+      GI (l.foldl (fun (p : T × G × List Bool) c => ((doCall p.1 p.2.1 c).1, (doCall p.1 p.2.1 c).2.1, p.2.2 ++ [(doCall p.1 p.2.1 c).2.2])) (t, g, acc)).2.1 from
+    hgen cs t g [] h hg
+  intro l
+  induction l with
+  | nil => intro t g acc h hg; exact ⟨h, hg⟩
+  | cons c l ih =>
+    intro t g acc h hg
+    have a := doCall_wf t g c h hg
+    simp only [List.foldl_cons]
+    exact ih _ _ _ a.1 a.2
+
+theorem runUser_wf (t : T) (g : G) (cs : List Call) (h : WF t = true) (hg : GI g) :
+    WF (runUser t g cs).1 = true ∧ GI (runUser t g cs).2 := by
+  unfold runUser
+  exact fold_wf (fun (q : T × G) c => ((doCall q.1 q.2 c).1, (doCall q.1 q.2 c).2.1.emit (.ret (doCall q.1 q.2 c).2.2)))
+    (fun t g c h hg => by have a := doCall_wf t g c h hg; exact ⟨a.1, GI_emit _ _ a.2⟩) cs t g h hg
+
+theorem runItem_wf (t : T) (g : G) (id : Nat) (h : WF t = true) (hg : GI g) :
+    WF (runItem t g id).1 = true ∧ GI (runItem t g id).2 := by
+  unfold runItem
+  split
+  · exact runUser_wf t _ _ h hg
+  · exact runTask_wf t g id h hg
+
+theorem runQueue_wf (t : T) (g : G) (h : WF t = true) (hg : GI g) :
+    WF (runQueue t g).1 = true ∧ GI (runQueue t g).2 := by
+  unfold runQueue
+  exact fold_wf (fun (p : T × G) (x : Nat × Unit) => runItem p.1 p.2 x.1)
+    (fun t g x h hg => runItem_wf t g x.1 h hg) _ t g h hg
+
+theorem step_wf (t : T) (g : G) (op : Op) (h : WF t = true) (hg : GI g) :
+    WF (step t g op).1 = true ∧ GI (step t g op).2.1 := by
+  have a : WF (applyOp t g op).1 = true ∧ GI (applyOp t g op).2.1 := by
+    cases op with
+    | calls cs => exact doCalls_wf t g cs h hg
+    | defer cs => exact ⟨h, hg.1, by simp only [applyOp]; have := hg.2; omega⟩
+    | adv ms => exact ⟨h, hg⟩
+    | pass => exact ⟨h, hg⟩
+  have q := runQueue_wf _ _ a.1 a.2
+  have f := fireTimers_wf _ _ q.1 q.2
+  exact f
+
+theorem run_wf : ∀ (ops : List Op) (t : T) (g : G), WF t = true → GI g → WF (run t g ops).1 = true ∧ GI (run t g ops).2
+  | [], t, g, h, hg => ⟨h, hg⟩
+  | op :: ops, t, g, h, hg => by
+    have a := step_wf t g op h hg
+    simp only [run]
+    exact run_wf ops _ _ a.1 a.2
+
+/-! ### freshly built trees, and what `WF` says in plain words -/
+
+mutual
+/-- leaves have no children (what the parser builds) -/
+def LeafShape : T → Bool
+  | .node d cs => (!d.isLeaf || cs.length == 0) && LeafShapeL cs
+def LeafShapeL : TL → Bool
+  | .nil => true
+  | .cons t ts => LeafShape t && LeafShapeL ts
+end
+
+mutual
+theorem wf_of_clean : ∀ (t : T), Clean t = true → LeafShape t = true → WF t = true
+  | .node d cs, hc, hl => by
+    simp only [Clean, LeafShape, Bool.and_eq_true] at hc hl
+    exact (wf_clean_node d cs hc.1 hl.1 hc.2 (wfL_of_cleanL cs hc.2 hl.2)).1
+theorem wfL_of_cleanL : ∀ (cs : TL), CleanL cs = true → LeafShapeL cs = true → WFL cs = true
+  | .nil, _, _ => by simp [WFL]
+  | .cons t ts, hc, hl => by
+    simp only [CleanL, LeafShapeL, Bool.and_eq_true] at hc hl
+    simp [WFL, wf_of_clean t hc.1 hl.1, wfL_of_cleanL ts hc.2 hl.2]
+end
+
+theorem GI_init : GI {} := ⟨rfl, by decide⟩
+
+/-- **the tree invariant holds in every reachable state** -/
+theorem reachable_wf (t : T) (ops : List Op) (hc : Clean t = true) (hl : LeafShape t = true) :
+    WF (run t {} ops).1 = true ∧ GI (run t {} ops).2 :=
+  run_wf ops t {} (wf_of_clean t hc hl) GI_init
+
+mutual
+/-- every action of the tree satisfies `P` -/
+def AllNodes (P : Node → Bool) : T → Bool
+  | .node d cs => P d && AllNodesL P cs
+def AllNodesL (P : Node → Bool) : TL → Bool
+  | .nil => true
+  | .cons t ts => AllNodes P t && AllNodesL P ts
+end
+
+mutual
+theorem wf_allNodes : ∀ (t : T), WF t = true → AllNodes nodeOk t = true
+  | .node d cs, h => by
+    simp only [WF, Bool.and_eq_true] at h
+    simp [AllNodes, h.1.1.1, wfL_allNodes cs h.2]
+theorem wfL_allNodes : ∀ (cs : TL), WFL cs = true → AllNodesL nodeOk cs = true
+  | .nil, _ => by simp [AllNodesL]
+  | .cons t ts, h => by
+    simp only [WFL, Bool.and_eq_true] at h
+    simp [AllNodesL, wf_allNodes t h.1, wfL_allNodes ts h.2]
+end
+
+mutual
+/-- below every action that is not under way nothing is running or paused -/
+def EndedQuiet : T → Bool
+  | .node d cs => (d.underway || QuietL cs) && EndedQuietL cs
+def EndedQuietL : TL → Bool
+  | .nil => true
+  | .cons t ts => EndedQuiet t && EndedQuietL ts
+end
+
+mutual
+theorem wf_endedQuiet : ∀ (t : T), WF t = true → EndedQuiet t = true
+  | .node d cs, h => by
+    obtain ⟨_, _, hch, hw⟩ := wf_parts d cs h
+    simp only [EndedQuiet, Bool.and_eq_true, Bool.or_eq_true]
+    refine ⟨?_, wfL_endedQuiet cs hw⟩
+    by_cases hu : d.underway = true
+    · exact Or.inl hu
+    · exact Or.inr (children_quiet d cs hch (by simpa using hu))
+theorem wfL_endedQuiet : ∀ (cs : TL), WFL cs = true → EndedQuietL cs = true
+  | .nil, _ => by simp [EndedQuietL]
+  | .cons t ts, h => by
+    simp only [WFL, Bool.and_eq_true] at h
+    simp [EndedQuietL, wf_endedQuiet t h.1, wfL_endedQuiet ts h.2]
+end
 
 end Tbox.C17
